@@ -13,7 +13,7 @@ import (
 func init() { props["C32"] = checkC32 }
 
 func checkC32(r *Run) {
-	r.Explain = "(R4+) strand.Strand returns the caller's pool-closed error whenever it leaves a wait on the quit channel and returns the closure's result only after the done channel was closed; C32: (R1) the strand-owned state of gnet.ConnectionPool (the connection maps and the id counter) is touched only inside closures passed to pool.strand, in functions called only from such closures, or in the reviewed start-up/shutdown functions; (R2) pool.listener is accessed only with listenerLock held; (R3) a variable written by a strand closure is read by the caller only when strand returned nil (on shutdown the closure may still be running); (R4) shutdown terminates: every goroutine counted by a WaitGroup calls Done on all exits, channels that workers range over are closed on all exits of their producer, every buffered error channel can absorb all blocking sends of its sender goroutines, and strand.Strand returns when quit is closed in both of its wait loops."
+	r.Explain = "(R1+) Shutdown closes quit, then waits for the strand goroutine (<-strandDone), and only afterwards touches strand-owned state directly (disconnectAll, map reads); (R4+) strand.Strand returns the caller's pool-closed error whenever it leaves a wait on the quit channel and returns the closure's result only after the done channel was closed; C32: (R1) the strand-owned state of gnet.ConnectionPool (the connection maps and the id counter) is touched only inside closures passed to pool.strand, in functions called only from such closures, or in the reviewed start-up/shutdown functions; (R2) pool.listener is accessed only with listenerLock held; (R3) a variable written by a strand closure is read by the caller only when strand returned nil (on shutdown the closure may still be running); (R4) shutdown terminates: every goroutine counted by a WaitGroup calls Done on all exits, channels that workers range over are closed on all exits of their producer, every buffered error channel can absorb all blocking sends of its sender goroutines, and strand.Strand returns when quit is closed in both of its wait loops."
 	r.NotDec = "races outside the ownership discipline (e.g. on Connection.Buffer), liveness under real network stalls"
 	owned := []string{"pool", "addresses", "defaultOutgoingConnections", "outgoingConnections", "incomingConnections", "connID"}
 	res := r.P.strandContext("daemon/gnet", "ConnectionPool", owned, "daemon/gnet.ConnectionPool.strand", map[string]string{
